@@ -324,6 +324,87 @@ def Span.covers (sp : Span) (i : Nat) : Bool := sp.start ≤ i && i < sp.stop
 def effStyles (spans : List Span) (i : Nat) : List (List Char) :=
   (spans.filter (·.covers i)).map (·.style)
 
+/-! ## Reference semantics of console markup (specification level, emoji off)
+
+Independent of positions, chunking, stacks of offsets and span lists: the text is a sequence of
+characters and tags; a character is annotated with the tags open when it is met, in opening order. -/
+
+/-- what the tokenizer's items mean: literal characters and tags -/
+inductive Ev where
+  | chr (c : Char)
+  | tag (t : Tag)
+deriving Repr, DecidableEq
+
+/-- `k` backslashes in front of `[body]`: `k / 2` literal backslashes, then the literal text
+`[body]` when `k` is odd, the tag when `k` is even. -/
+def Lx.evs : Lx → List Ev
+  | .ch c => [Ev.chr c]
+  | .tag k b =>
+    (bsl (k / 2)).map Ev.chr ++
+      (if k % 2 = 1 then ('[' :: b ++ [']']).map Ev.chr else [Ev.tag (mkTag b)])
+
+def events (s : List Char) : List Ev := (lex s).flatMap Lx.evs
+
+/-- an open tag: its normalized name (what a closing tag is compared with) and the style it applies -/
+structure OTag where
+  name : List Char
+  style : List Char
+deriving Repr, DecidableEq
+
+inductive TagKind where
+  | opening (o : OTag)
+  | closeName (n : List Char)
+  | closeTop
+deriving Repr, DecidableEq
+
+def classify (cfg : Cfg) (t : Tag) : TagKind :=
+  if t.name.head? = some '/' then
+    let sn := pyStrip cfg.isSpace t.name.tail
+    if sn ≠ [] then .closeName (cfg.norm sn) else .closeTop
+  else .opening { name := cfg.norm t.name, style := ({ name := cfg.norm t.name, params := t.params } : Tag).str }
+
+/-- close the most recent open tag of that name (`op` lists the most recent first) -/
+def closeRecent (name : List Char) : List OTag → Option (List OTag)
+  | [] => none
+  | o :: os =>
+    if o.name = name then some os
+    else match closeRecent name os with
+      | some os' => some (o :: os')
+      | none => none
+
+/-- the characters of the rendered text, each with the styles of the tags open there in opening
+order; `none` = a closing tag had nothing to close.  `op` = open tags, most recent first. -/
+def sem (cfg : Cfg) : List OTag → List Ev → Option (List (Char × List (List Char)))
+  | _, [] => some []
+  | op, .chr c :: r =>
+    if isStripped c then sem cfg op r
+    else match sem cfg op r with
+      | some a => some ((c, op.reverse.map (·.style)) :: a)
+      | none => none
+  | op, .tag t :: r =>
+    match classify cfg t with
+    | .opening o => sem cfg (o :: op) r
+    | .closeName n =>
+      (match closeRecent n op with
+        | some op' => sem cfg op' r
+        | none => none)
+    | .closeTop =>
+      (match op with
+        | _ :: op' => sem cfg op' r
+        | [] => none)
+
+/-- the render loop fed with events instead of `_parse` tuples (no positions, one character at a time) -/
+def stepEv (cfg : Cfg) (st : St) : Ev → Option St
+  | .chr c => some { st with text := st.text ++ stripControl [c] }
+  | .tag t => (step cfg st (.tag 0 t)).toOption
+
+def runEv (cfg : Cfg) : St → List Ev → Option St
+  | st, [] => some st
+  | st, e :: es =>
+    match stepEv cfg st e with
+    | some st' => runEv cfg st' es
+    | none => none
+
 /-- message of the `MarkupError` -/
 def MErr.message : MErr → String
   | .noMatch pos m => "closing tag '" ++ String.ofList m ++ "' at position " ++ toString pos ++ " doesn't match any open tag"
